@@ -161,12 +161,14 @@ def forbidden_tokens():
     return hits
 
 
-def axiom_audit(pid, theorems):
+def axiom_audit(pid, theorems, with_shape=False):
     """#print axioms on every property theorem.  Returns (discharged_names, problems, axioms_by_thm)"""
     os.makedirs(BUILD, exist_ok=True)
     f = os.path.join(BUILD, "audit_%s.lean" % pid)
     with open(f, "w") as fh:
         fh.write("import MythVerif.Properties.%s\n" % pid)
+        if with_shape:
+            fh.write("import MythVerif.Shape.%s\n" % pid)
         for t in theorems:
             fh.write("#print axioms %s\n" % t)
     rc, out, err = sh(["lake", "env", "lean", f], cwd=LEAN, timeout=600)
@@ -382,11 +384,36 @@ def finish(res):
     return 0
 
 
+def shape_tie(res):
+    """source-shape translator + its proof obligation `Shape/<pid>.lean` (its own module, so that a
+    changed function breaks this obligation and not every theorem of the property).
+    Returns (theorem_names, module_ok)."""
+    pid = res.pid
+    sys.path.insert(0, os.path.join(VERIF, "translate"))
+    import shape_extract
+    shapes, err = shape_extract.run()
+    name = "MythVerif.Shapes.%s_source_shape" % pid
+    if err:
+        res.brk("translator", err)
+        return [name], False
+    nfun = len(shapes.get(pid, []))
+    res.notes["source_shape_functions"] = nfun
+    changed = shape_extract.diff_against_spec(shapes, pid)
+    ok, log = lean_build(["MythVerif.Shape." + pid])
+    if changed or not ok:
+        what = "; ".join(changed) if changed else " ;; ".join([l for l in log.splitlines() if "error" in l.lower()][:4])
+        res.brk("source-shape", "theorem %s no longer checks: the code of a modelled function differs from the text the model "
+                "transcribes (- = statement the model was written against, + = current source): %s" % (name, what[:1500]))
+        return [name], False
+    return [name], True
+
+
 def prove(res, drivers=(), extra_modules=()):
     """step 2 of a run: build Properties/<pid> and the drivers it uses (drv_<name>), audit axioms"""
     pid = res.pid
+    shape_thms, shape_ok = shape_tie(res)
     ok, log = lean_build(["MythVerif.Properties." + pid] + ["drv_" + d for d in drivers] + list(extra_modules))
-    thms = property_theorems(pid)
+    thms = property_theorems(pid) + shape_thms
     res.cov["obligations"] = len(thms)
     res.cov["checker_cmd"] = "cd lean && lake build MythVerif.Properties.%s && lake env lean <#print axioms for %d theorems>" % (pid, len(thms))
     if not ok:
@@ -398,7 +425,7 @@ def prove(res, drivers=(), extra_modules=()):
     hits = forbidden_tokens()
     if hits:
         res.brk("audit", "forbidden tokens in Lean sources: " + ", ".join(hits[:10]))
-    good, problems, axs = axiom_audit(pid, thms)
+    good, problems, axs = axiom_audit(pid, [t for t in thms if shape_ok or t not in shape_thms], with_shape=shape_ok)
     res.cov["discharged"] = len(good) if not hits else 0
     res.notes["theorems"] = thms
     res.notes["axioms_used"] = sorted({a for v in axs.values() for a in v})
@@ -410,7 +437,7 @@ def prove(res, drivers=(), extra_modules=()):
         res.notes["leanchecker_rc"] = rc
         if rc != 0:
             res.brk("audit", "leanchecker rejected MythVerif.Properties.%s: %s" % (pid, (o + e)[-300:]))
-    return ok and not problems and not hits
+    return ok and not problems and not hits and shape_ok
 
 
 def hashcase(x):
